@@ -118,6 +118,21 @@ h!(q_from_box_dt, {
     drop(a);
     finish(1);
 });
+static mut ZB_DROPS: u8 = 0;
+struct ZBox;
+impl Drop for ZBox {
+    fn drop(&mut self) {
+        unsafe { ZB_DROPS += 1 };
+    }
+}
+h!(q_from_box_zst, {
+    // a Box of a zero-sized value owns no storage: nothing may be handed to the allocator for it
+    let a: Arc<ZBox> = Arc::from(Box::new(ZBox));
+    assert!(unsafe { ZB_DROPS } == 0 && Arc::count(&a) == 1);
+    assert!(n_live() == 1 && ndealloc() == 0, "From<Box<ZST>>: the allocator was handed something for the (storage-less) Box");
+    drop(a);
+    assert!(unsafe { ZB_DROPS } == 1 && n_live() == 0);
+});
 h!(q_new_from_default, {
     let v: u8 = kani::any();
     let a = Arc::new(Dt::new(0, v));
